@@ -18,6 +18,7 @@ from .values import (SV, Ver, DictVal, SetVal, ListVal, PObj, ItemsView, Assoc, 
                      PyExc, is_num, zreal, zint, is_intlike, Opaque, StarKey)
 from . import folds as FO
 from . import lists as LS
+from . import enumth as EN
 
 
 _ARITH_KINDS = None
@@ -71,6 +72,10 @@ def _arith_abstraction(formulas):
         if r is not None:
             out.append(r)
     return out
+
+
+DICT_ATTRS = {"items", "keys", "values", "get", "pop", "copy", "clear", "setdefault", "update", "popitem", "fromkeys",
+              "__getitem__", "__setitem__", "__delitem__", "__contains__", "__len__", "__iter__", "__class__"}
 
 
 class _Return(Exception):
@@ -416,10 +421,10 @@ class Engine:
         if isinstance(v, ListVal):
             return len(v.items) != 0
         if isinstance(v, DictVal):
-            return FO.fold(self, v.ver, "size") != 0
+            return FO.size_of(self, self.store_of(v)) != 0
         if isinstance(v, PObj):
             if v.store is not None:
-                return FO.fold(self, self.store_of(v), "size") != 0
+                return FO.size_of(self, self.store_of(v)) != 0
             if getattr(v, "lstore", None) is not None:
                 return self.lver_of(v).length != 0
             return True
@@ -924,6 +929,8 @@ class Engine:
         if not has_default:
             if not self.branch(had):
                 raise PyExc("KeyError")
+            if not any(kk.eq(pk) for pk, _ in ver.picked):
+                FO.note_present(self, ver, kk, old)          # the popped item was an item: all-folds hold for it
             res = SV(old, "real" if ver.vsort == T.Real else "int")
         else:
             d = zreal(default) if ver.vsort == T.Real else zint(default)
@@ -1119,6 +1126,9 @@ class Engine:
         if s.orelse:
             raise Unsupported("for/else")
         it = self.eval(s.iter, fr)
+        if isinstance(it, DictVal) or (isinstance(it, PObj) and it.store is not None):
+            holder = it.store if isinstance(it, PObj) else it          # `for k in d`: the keys
+            it = ItemsView(self.store_of(holder), "keys", owner=holder)
         ordinal = self.static_ordinal(fr, s, ast.For)
         conc = self.concrete_iter(it)
         if conc is not None:
@@ -1302,7 +1312,10 @@ class Engine:
         keys = set()
         if owner is not None:
             keys.add((id(owner), attr))
-        if isinstance(v, (DictVal, PObj, SetVal)):
+        if isinstance(v, EN.Groups):
+            keys.add(id(v))
+            EN.havoc_groups(self, v, path.replace(".", "_"))
+        elif isinstance(v, (DictVal, PObj, SetVal)):
             keys |= set(self.snapshot([v]).keys())
             self.havoc_object(v, path.replace(".", "_"))
         elif owner is not None and not (v is None or isinstance(v, str)):
@@ -1406,6 +1419,8 @@ class Engine:
             ckind, coll = "results", None
         elif isinstance(it, SeqIter) and it.kind == "gen":
             ckind, coll = "gen", it.data
+        elif isinstance(it, EN.Product):
+            ckind, coll = "product", it
         elif isinstance(it, SeqIter) and it.kind == "range":
             ckind = "range"
             a = it.data
@@ -1480,6 +1495,8 @@ class Engine:
             g0 = LS.empty(self)
         elif ckind == "results":
             g0 = None
+        elif ckind == "product":
+            g0 = SV(z3.K(EN.Asg, z3.BoolVal(False)), "asgset")
         else:
             g0 = SV(coll[0], "int")
         oblige_inv("%s/%s.init" % (qn, kindname), g0)
@@ -1487,9 +1504,11 @@ class Engine:
         live = [n for n in names if n in fr.locals]
         for n in live:
             v = fr.locals[n]
-            if isinstance(v, (DictVal, PObj, SetVal)):
+            if isinstance(v, (DictVal, PObj, SetVal, EN.Groups)):
                 continue
             kind = spec.get("vars", {}).get(n)
+            if kind == "bestpair":
+                continue            # after the havoc of the objects (it forks the path)
             if kind == "optrid":
                 fr.locals[n] = self.fresh_optrid(n)
             else:
@@ -1497,6 +1516,15 @@ class Engine:
         allowed = set()
         for on in sorted(objnames | set(live)):
             allowed |= self.havoc_path(fr, on)
+        for n in live:
+            if spec.get("vars", {}).get(n) == "bestpair":
+                # best = (None, {}) before the first valid assignment, (value, assignment) afterwards: the havocked
+                # pair is one or the other (the path forks)
+                self.nfresh += 1
+                if self.branch(z3.Bool("%s_none!%d" % (n, self.nfresh))):
+                    fr.locals[n] = (None, self.alloc(DictVal(FO.empty(self, T.Key, T.Real))))
+                else:
+                    fr.locals[n] = (self.fresh("real", n + "_value"), EN.fresh_asg(self, n + "_solution"))
         alloc_mark = getattr(self, "nalloc", 0)
         # ---- step (explored as a side path: decisions made inside the step are local to it)
         if self.loop_phase(ordinal, fr) == "step":
@@ -1537,6 +1565,20 @@ class Engine:
                 fr.locals[gname] = None
                 self.assume(inv(None))
                 item, vis2 = LS.new_rid(self, "elem"), None
+            elif ckind == "product":
+                # every tuple of the product exactly once (trusted specification of itertools.product): the visited
+                # tuples are some of them, the current one is another
+                self.nfresh += 1
+                V = z3.Const("visited!%d" % self.nfresh, EN.SetSort)
+                tq = z3.Const("tq!%d" % self.nfresh, EN.Asg)
+                self.assume(z3.ForAll([tq], z3.Implies(z3.Select(V, tq), coll.member(tq))))
+                vis = SV(V, "asgset")
+                fr.locals[gname] = vis
+                self.assume(inv(vis))
+                t = EN.fresh_asg(self, "t", "asgtuple")
+                self.assume(coll.member(t.e))
+                self.assume(z3.Not(z3.Select(V, t.e)))
+                item, vis2 = t, SV(z3.Store(V, t.e, z3.BoolVal(True)), "asgset")
             elif ckind == "gen":
                 gc, genv = coll["contract"], coll["env"]
                 part = self.fresh("real", "partial")
@@ -1593,6 +1635,10 @@ class Engine:
             gN = coll
         elif ckind == "results":
             gN = None
+        elif ckind == "product":
+            self.nfresh += 1
+            tq = z3.Const("tq!%d" % self.nfresh, EN.Asg)
+            gN = SV(z3.Lambda([tq], coll.member(tq)), "asgset")
         elif ckind == "gen":
             gfr = Frame(coll["closure"], dict(coll["env"]))
             gN = self.eval_spec(coll["contract"].gen["total"], coll["env"], gfr)
@@ -1707,6 +1753,8 @@ class Engine:
             return self.alloc(DictVal(FO.empty(self, T.Key, T.Real)))
         keys = [self.eval(k, fr) for k in n.keys]
         vals = [self.eval(v, fr) for v in n.values]
+        if len(keys) == 1 and keys[0] is None and isinstance(vals[0], ListVal) and not vals[0].items:
+            return EN.new_groups(self, vals[0])      # {None: []}: table of solution lists keyed by value (C09)
         if all(isinstance(k, (int, str)) and not isinstance(k, bool) for k in keys) and \
            not all(isinstance(k, tuple) for k in keys):
             return dict(zip(keys, vals))       # small concrete lookup table (e.g. convert = {0: 1, 1: -1})
@@ -1856,6 +1904,8 @@ class Engine:
         if isinstance(obj, Ver):
             kk = self.as_dictkey(obj, idx)
             return SV(z3.Select(obj.val, kk), "real" if obj.vsort == T.Real else "int")
+        if isinstance(obj, EN.Groups):
+            return EN.groups_getitem(self, obj, idx)
         if isinstance(obj, dict):
             if isinstance(idx, SV):
                 # concrete table indexed by a symbolic number: if-then-else chain; KeyError when no key matches
@@ -1962,7 +2012,9 @@ class Engine:
                     return BoundMethod(ClassRef(obj.cls), Closure(fd, None, k.module, k), k)
                 return BoundMethod(obj, Closure(fd, None, k.module, k), k)
             if k is not None and kind == "builtin":
-                return Builtin(k + "." + name, recv=obj)
+                import builtins as _pybi
+                if hasattr(getattr(_pybi, k, object), name):
+                    return Builtin(k + "." + name, recv=obj)
             raise PyExc("AttributeError", name)
         if isinstance(obj, ClassRef):
             if name == "__name__":
@@ -1990,8 +2042,10 @@ class Engine:
             if obj.name == "QUBOVertWarning" and name == "warn":
                 return Builtin("warn")
             return Builtin(obj.name + "." + name)
-        if isinstance(obj, (DictVal, ListVal, SetVal, ItemsView, tuple, list, dict, str, frozenset, AssignVal, SeqIter)) or \
-           (isinstance(obj, SV) and obj.t == "key"):
+        if isinstance(obj, DictVal) and name not in DICT_ATTRS:
+            raise PyExc("AttributeError", name)          # a plain dict has no such attribute
+        if isinstance(obj, (DictVal, ListVal, SetVal, ItemsView, tuple, list, dict, str, frozenset, AssignVal, SeqIter,
+                            EN.Groups, EN.GroupRef)) or (isinstance(obj, SV) and obj.t == "key"):
             return Builtin("m." + name, recv=obj)
         if isinstance(obj, BuiltinClass) or (isinstance(obj, Builtin) and obj.recv is None and obj.name in self.BUILTIN_CLASSES):
             return Builtin(obj.name + "." + name)
@@ -2104,6 +2158,10 @@ class Engine:
             return B.call_builtin(self, fn, args, kwargs, fr)
         if isinstance(fn, ClassRef):
             return self.instantiate(fn.cls, args, kwargs)
+        if isinstance(fn, EN.AbstractFn):
+            if kwargs:
+                raise Unsupported("keyword arguments to an abstract function")
+            return EN.call_abstract(self, fn, args)
         if isinstance(fn, BuiltinClass):
             from . import builtins as B
             return B.call_builtin(self, Builtin(fn.name), args, kwargs, fr)
@@ -2250,7 +2308,34 @@ class Engine:
         from . import builtins as B
         return B.eval_comprehension(self, n, fr, "list")
 
+    def _asg_comprehension(self, n, fr):
+        """{mapping[i]: v for i, v in enumerate(t)} with t a tuple of the enumeration: the assignment built from t"""
+        if len(n.generators) != 1:
+            return None
+        g = n.generators[0]
+        it = g.iter
+        if not (isinstance(it, ast.Call) and isinstance(it.func, ast.Name) and it.func.id == "enumerate" and
+                len(it.args) == 1 and not it.keywords and not g.ifs):
+            return None
+        src = self.eval(it.args[0], fr)
+        if not (isinstance(src, SV) and src.t == "asgtuple"):
+            return None
+        tg = g.target
+        if not (isinstance(tg, ast.Tuple) and len(tg.elts) == 2 and all(isinstance(e, ast.Name) for e in tg.elts)):
+            raise Unsupported("assignment comprehension: target shape")
+        i, v = tg.elts[0].id, tg.elts[1].id
+        if not (isinstance(n.value, ast.Name) and n.value.id == v and isinstance(n.key, ast.Subscript) and
+                isinstance(n.key.slice, ast.Name) and n.key.slice.id == i):
+            raise Unsupported("assignment comprehension: not {mapping[i]: v for i, v in enumerate(t)}")
+        m = self.eval(n.key.value, fr)
+        if not isinstance(m, (DictVal, dict, Assoc)):
+            raise Unsupported("assignment comprehension: mapping is %s" % type(m).__name__)
+        return SV(src.e, "asg")
+
     def ex_DictComp(self, n, fr):
+        r = self._asg_comprehension(n, fr)
+        if r is not None:
+            return r
         from . import builtins as B
         return B.eval_comprehension(self, n, fr, "dict")
 
